@@ -1,6 +1,7 @@
 // Kani harnesses (child module of crates/axmos-db/src/storage/page.rs).  See /verif/HARNESS_GUIDE.md
 // C09 (close/reopen): aborted-transaction bitmap laws, header <-> bytes round trips, config -> header persistence
 // (shared with C12); C13: bitmap clearing never goes above the horizon.
+// @limits timeout_s=900
 #![allow(unused_imports, dead_code, clippy::all)]
 use super::*;
 
